@@ -15,7 +15,7 @@ def gen(run, name, nodes, clients, msgs, ids, depth, simulate=None, qos=(0, 1, 2
                                simulate=simulate, depth=(depth * 6) if simulate else None)
 
 
-def scenario(h, nodes, dupall=False, dynamic=False):
+def scenario(h, nodes, dupall=False, dynamic=False, empty=False):
     """dynamic: the subscriptions are made AFTER every topic has been published once from every publishing node (so that whatever
     a node remembers about a topic stems from a time without subscribers), and at the end one remote subscriber unsubscribes
     and the topic is published once more: destinations follow what the publishing node knows NOW."""
@@ -71,5 +71,8 @@ def scenario(h, nodes, dupall=False, dynamic=False):
         if 2 in nodes and "c1" in pubconns:
             ops.append({"op": "unsub", "c": 12, "id": 7, "fs": [{"f": ["t", "m2"], "q": 0}]})
             ops.append({"op": "pub", "c": PUBCONN["c1"], "t": ["t", "m2"], "p": "after-unsub", "q": 1, "id": 9})
+    if empty and "c1" in pubconns and not down:
+        # a publish with an empty payload (legal: a bare event) is distributed like any other
+        ops.append({"op": "pub", "c": PUBCONN["c1"], "t": ["t", "m5" if 3 in nodes else "m2"], "p": "", "q": 0, "id": 0})
     ops.append({"op": "quiesce"})
     return {"nodes": nodes, "ops": ops}
